@@ -18,6 +18,7 @@ func main() {
 		return
 	}
 	run := ev.Start("C10")
+	defer run.Guard()
 	gen2.Run(run)
 	gen1.Run(run)
 	run.Set("generations", []string{"v2", "root"})
